@@ -83,6 +83,22 @@ func main() {
 	os.Exit(run(*repo, *prop, *tier, *verif, "", *dump, *controls))
 }
 
+// loaded keeps the analysed program between the properties of one
+// "-property all" invocation; the source is still read once per process.
+var loaded = map[string]*core.Prog{}
+
+func load(repo string) (*core.Prog, error) {
+	if p := loaded[repo]; p != nil {
+		core.Active = p
+		return p, nil
+	}
+	p, err := core.Load(repo, "verif")
+	if err == nil {
+		loaded[repo] = p
+	}
+	return p, err
+}
+
 func seed() int {
 	if s := os.Getenv("VERIF_SEED"); s != "" {
 		if n, err := strconv.Atoi(s); err == nil {
@@ -97,7 +113,7 @@ func run(repo, prop, tier, verif, onlyKey, dump, controls string) int {
 	if t := os.Getenv("VERIF_TIER"); t != "" && tier == "" {
 		tier = t
 	}
-	p, err := core.Load(repo, "verif")
+	p, err := load(repo)
 	if err != nil {
 		fmt.Fprintln(os.Stderr, "argverif: cannot analyse target:", err)
 		return 2
